@@ -81,14 +81,14 @@ Qed.
 Lemma pplan_eqb_eq a b : pplan_eqb a b = true -> a = b.
 Proof. destruct a, b; simpl; intro H; try discriminate; reflexivity. Qed.
 
-Lemma cfg_ok_sat c a s :
+Lemma cfg_ok_sat c ex a s :
   cfg_ok c = true -> mode_known a = true -> mode_known s = true ->
-  sat_plan c a s = expected_sat (parse_mode (eff_mode a s)).
+  sat_plan c ex a s = expected_sat ex (parse_mode (eff_mode a s)).
 Proof.
   intros Hc Ha Hs. unfold cfg_ok in Hc. apply andb_true_iff in Hc; destruct Hc as [Hc _].
   rewrite forallb_forall in Hc. specialize (Hc a (mode_known_in a Ha)).
   rewrite forallb_forall in Hc. specialize (Hc s (mode_known_in s Hs)).
-  apply sat_eqb_eq. exact Hc.
+  rewrite forallb_forall in Hc. apply sat_eqb_eq. apply Hc. destruct ex; simpl; tauto.
 Qed.
 
 Lemma cfg_ok_plan c ex m :
@@ -168,7 +168,7 @@ Proof.
   apply andb_true_iff in Hok; destruct Hok as [Hok Hd].
   apply andb_true_iff in Hok; destruct Hok as [Hok Hs].
   apply andb_true_iff in Hok; destruct Hok as [_ Ha].
-  unfold m_save, s_save. rewrite (cfg_ok_sat c a s Hc Ha Hs).
+  unfold m_save, s_save. rewrite (cfg_ok_sat c _ a s Hc Ha Hs).
   destruct (parse_known _ (eff_mode_known a s Ha Hs)) as [sm Esm].
   unfold is_append in Happ. rewrite Esm in *. simpl.
   destruct sm; simpl.
@@ -180,16 +180,19 @@ Proof.
     + unfold s_create. destruct d; reflexivity.
   - (* overwrite *) unfold abs; simpl. unfold s_create.
     destruct (alookup n (m_tabs st)); simpl; destruct d; reflexivity.
-  - (* append: the table exists and the frame has the table's column names in order *)
-    destruct (alookup n (m_tabs st)) as [old|] eqn:El; [|discriminate].
-    apply andb_true_iff in Happ; destruct Happ as [Hn Hcomp].
-    apply names_eqb_eq in Hn.
-    unfold m_insert, s_insert, abs; simpl. rewrite El. simpl.
-    destruct d as [t|t]; simpl in *; [|reflexivity].
-    assert (El' : List.length (t_cols t) = List.length (t_cols old)).
-    { unfold names in Hn. apply (f_equal (@List.length string)) in Hn. rewrite !map_length in Hn. exact Hn. }
-    rewrite El', Nat.eqb_refl. rewrite <- Hn. rewrite (project_id t Hd).
-    unfold s_append. rewrite Hcomp. reflexivity.
+  - (* append *)
+    unfold ahas. destruct (alookup n (m_tabs st)) as [old|] eqn:El.
+    + (* the table exists and the frame has the table's column names in order: positional = by name *)
+      apply andb_true_iff in Happ; destruct Happ as [Hn Hcomp].
+      apply names_eqb_eq in Hn.
+      unfold m_insert, s_insert, abs; simpl. rewrite El. simpl.
+      destruct d as [t|t]; simpl in *; [|reflexivity].
+      assert (El' : List.length (t_cols t) = List.length (t_cols old)).
+      { unfold names in Hn. apply (f_equal (@List.length string)) in Hn. rewrite !map_length in Hn. exact Hn. }
+      rewrite El', Nat.eqb_refl. rewrite <- Hn. rewrite (project_id t Hd).
+      unfold s_append. rewrite Hcomp. reflexivity.
+    + (* the table does not exist: append creates it *)
+      unfold abs, exec, s_create; simpl. destruct d; reflexivity.
 Qed.
 
 Lemma sim_write c residue st p f a s d :
@@ -431,7 +434,7 @@ Lemma step_live c residue st o k :
   live_step (fun k => ahas k (m_tabs st)) o (snd (m_step c residue st o)) k.
 Proof.
   destruct o as [n a s d|n b d|p f a s d|n|p f|n|n| |n|n]; simpl.
-  - unfold m_save. destruct (sat_plan c a s) as [|ine orr].
+  - unfold m_save. destruct (sat_plan c _ a s) as [|ine orr].
     + unfold m_insert.
       pose proof (exec_insert_keeps (m_tabs st) n (d, None) k) as Hk.
       pose proof (exec_insert_ok_has (m_tabs st) n (d, None)) as Hh.
@@ -492,7 +495,7 @@ Proof.
     destruct (eval_query q) as [t|]; cbn [fst]; [|exact H]. destruct (compatible old t); cbn [fst]; [|exact H].
     apply nodup_aset. exact H. }
   destruct o as [n a s d|n b d|p f a s d|n|p f|n|n| |n|n]; cbn [m_step fst m_tabs]; try exact H.
-  - unfold m_save. destruct (sat_plan c a s) as [|ine orr].
+  - unfold m_save. destruct (sat_plan c _ a s) as [|ine orr].
     + unfold m_insert. specialize (Hins n (d, None)).
       destruct (exec (m_tabs st) (SInsert n (d, None))); exact Hins.
     + assert (Hc : NoDup (akeys (fst (exec (m_tabs st) (SCreate ine orr n (d, None)))))).
@@ -577,7 +580,7 @@ Proof.
   intros Hw Hd Hb Hat.
   destruct o as [n a s d'|n b d'|p f a s d'|n|p f|n|n| |n|n]; cbn [is_write] in Hw; try discriminate;
     cbn [op_df] in Hd; inversion Hd; subst d'; cbn [m_step].
-  - unfold m_save. destruct (sat_plan c a s) as [|ine orr].
+  - unfold m_save. destruct (sat_plan c _ a s) as [|ine orr].
     + unfold m_insert.
       pose proof (exec_insert_bad (m_tabs st) n d None Hb) as E.
       pose proof (exec_insert_bad_obs (m_tabs st) n d None Hb) as E2.
